@@ -9,6 +9,7 @@ Z3_RLIMIT = int(os.environ.get('VERIF_Z3_RLIMIT', '60000000'))     # determinist
 Z3_TIMEOUT_MS = int(os.environ.get('VERIF_Z3_TIMEOUT_MS', '120000'))   # wall-clock safety net only
 Z3_FIRST_MS = int(os.environ.get('VERIF_Z3_FIRST_MS', '8000'))
 CVC5_TIMEOUT_MS = int(os.environ.get('VERIF_CVC5_TIMEOUT_MS', '40000'))
+CVC5_QUICK_MS = int(os.environ.get('VERIF_CVC5_QUICK_MS', '5000'))
 # wall-clock budget of one discharge_all call for the slow stages (cvc5, long z3): a change that breaks hundreds of
 # obligations must not turn the check into hours of time-outs; past the deadline every remaining obligation still gets
 # the first z3 stage and the finite-scope model search (so it is still proved / refuted when that is quick)
@@ -131,10 +132,13 @@ def _work(job):
     if strings:
         order = [('cvc5', lambda: _cvc5_check_text(text, True)), ('z3', lambda: _z3_check_text(text, Z3_TIMEOUT_MS))]
     else:
-        order = [('z3', lambda: _z3_check_text(text, Z3_FIRST_MS)), ('z3-finite-scope', lambda: _finite_scope(text)),
+        # a short cvc5 attempt comes before the finite-scope model search: obligations that z3 cannot instantiate but cvc5
+        # proves at once (typical for nested-quantifier hypotheses) would otherwise pay up to 45 s of fruitless model search
+        order = [('z3', lambda: _z3_check_text(text, Z3_FIRST_MS)), ('cvc5', lambda: _cvc5_check_text(text, tlimit_ms=CVC5_QUICK_MS)),
+                 ('z3-finite-scope', lambda: _finite_scope(text)),
                  ('cvc5', lambda: _cvc5_check_text(text)), ('z3', lambda: _z3_check_text(text, Z3_TIMEOUT_MS))]
     for n_stage, (backend, f) in enumerate(order):
-        if _late() and n_stage >= (1 if strings else 2):
+        if _late() and n_stage >= (1 if strings else 3):
             why_all.append('slow-stage budget of this check exhausted (VERIF_SLOW_BUDGET_S)')
             break
         res = f()
@@ -162,7 +166,7 @@ def discharge_all(jobs, nproc=16, inline_threshold=3):
         return out
     ctx = mp.get_context('fork')
     with ctx.Pool(min(nproc, len(jobs))) as pool:
-        for n, st, be, dt, model, why in pool.imap_unordered(_work, jobs, chunksize=max(1, len(jobs) // (nproc * 4))):
+        for n, st, be, dt, model, why in pool.imap_unordered(_work, jobs, chunksize=max(1, min(8, len(jobs) // (nproc * 8)))):
             out[n] = (st, be, dt, model, why)
             if st == 'refuted' and '/canary' not in n:
                 DEADLINE.value = min(DEADLINE.value, time.time() + AFTER_REFUTATION_S)
